@@ -26,3 +26,5 @@ func vHasPrefix(a, p []byte) bool               { return false }
 func vInstantiate(i int)                        {}
 func vNote(s string)                            {}
 func vSymbolic() bool                           { return true }
+func vAll(c ...bool) bool                        { return false }
+func vAny(c ...bool) bool                        { return false }
